@@ -9,7 +9,7 @@ D2 printing: Field / Paragraph / Deb822 Display are interpreted on every value s
    printed text is inside the language both readers accept and read back line by line."""
 import itertools
 import facts, hirai, symstr, roundtrip
-from hirai import OK, RET, PANIC, SOME, NONE, some, none, unk, UNIT
+from hirai import OK, RET, PANIC, SOME, NONE, OKV, ERRV, some, none, unk, UNIT
 from report import Check
 
 P = "deb822_lossless::lossy::"
@@ -172,6 +172,8 @@ def run(tier):
         outs, I = roundtrip.render_value(F, mod, doc)
         got = [symstr.show(r) for ctl, r in outs if ctl == OK]
         C.ob("C08/print-document", "%d paragraphs" % np_, len(outs) == 1 and got == [want], "prints %r, expected %r (one empty line between paragraphs)" % (got, want))
+    # ---------------- constructors and reader entry points of the lossy back-end
+    check_lossy_entry_points(F, C)
     # the printed line forms are lexed as the read-back product assumes (incl. value lines starting with ':' or '#'-free text)
     import c03
     c03.check_lexing(F, C, "C08/read-back-lexing")
@@ -193,3 +195,74 @@ def run(tier):
                       "that the printed line forms are accepted and read back line by line is C03 (lexer templates, lossless reader) and C06 (lossy reader) - this check establishes that the printer emits exactly those forms"]
     return C.finish("List operations are interpreted on all field vectors up to length 3 over two names (get/set/insert/remove/len/is_empty vs the list model); "
                     "the Display impls are interpreted over every value shape of the domain and must print exactly the canonical field/continuation line forms and one blank line between paragraphs.")
+
+
+def check_lossy_entry_points(F, C):
+    """FromIterator keeps one field per pair (repeated names included); from_reader parses exactly what it read;
+    Paragraph::from_str returns the only paragraph and rejects none / several"""
+    LP = "deb822_lossless::lossy::"
+    mod = roundtrip.RTMod(F)
+    k = "<%sParagraph as core::iter::traits::collect::FromIterator<(alloc::string::String, alloc::string::String)>>::from_iter" % LP
+    f = F.fn(k)
+    if C.ob("C08/anchor", k, f is not None, "not found"):
+        pairs = [("A", "a1"), ("B", "b"), ("A", "a2"), ("A", "a3")]
+        arg = ("abs", "svec", tuple(("tuple", (symstr.lit(n), symstr.atom(v, "line"))) for n, v in pairs))
+        I = hirai.Interp(F, mod)
+        res = I.inline(f, [arg], hirai.State(depth=0))
+        got = []
+        for ctl, v, s in res:
+            v = I.deep_deref(s, I.deref_val(s, v), 0) if ctl == OK else v
+            if ctl == OK and v[0] == "struct":
+                fl = dict(v[2]).get("fields")
+                items = fl[2] if fl and fl[0] == "abs" and fl[1] == "svec" else (fl[2][fl[3]:] if fl and fl[0] == "abs" and fl[1] == "siter" else None)
+                got.append([(symstr.show(dict(x[2])["name"]), symstr.show(dict(x[2])["value"])) for x in items] if items is not None else str(fl)[:80])
+            else:
+                got.append("%s %s" % (ctl, str(v)[:80]))
+        want = [(n, "<%s>" % v) for n, v in pairs]
+        C.ob("C08/from-pairs-list", "lossy Paragraph from (name, value) pairs with a repeated name", got == [want], "builds %s, expected %s" % (got, want), f["sp"])
+    # from_reader: the text handed to the parser is what read_to_string produced
+    k = LP + "Deb822::from_reader"
+    f = F.fn(k)
+    if C.ob("C08/anchor", k, f is not None, "not found"):
+        seen = []
+
+        class RM(roundtrip.RTMod):
+            def intrinsic(self, I, callee, args, st, n):
+                if callee == "std::io::Read::read_to_string" and len(args) > 1 and args[1][0] == "ref":
+                    return [(OK, ("enum", OKV, (hirai.mkint(1),)), I.write(st, args[1][1], symstr.atom("file-contents", "text")))]
+                if callee == "core::str::<impl str>::parse" or callee.endswith("lossy::Deb822 as core::str::traits::FromStr>::from_str"):
+                    seen.append(symstr.show(I.deref_val(st, args[0])))
+                    return [(OK, ("enum", OKV, (("abs", "doc"),)), st)]
+                return super().intrinsic(I, callee, args, st, n)
+        I = hirai.Interp(F, RM(F))
+        res = I.inline(f, [("abs", "reader")], hirai.State(depth=0))
+        outs = [(ctl, str(I.deref_val(s, v))[:60]) for ctl, v, s in res]
+        C.ob("C08/reader-text", "Deb822::from_reader", seen == ["<file-contents>"] and len(res) == 1 and res[0][0] == OK and not I.unknown_calls,
+             "the parser is given %s (outcomes %s, unmodelled calls %s); expected exactly the text read from the reader" % (seen, outs, sorted(I.unknown_calls)), f["sp"])
+    # Paragraph::from_str by number of paragraphs in the document
+    k = "<%sParagraph as core::str::traits::FromStr>::from_str" % LP
+    f = F.fn(k)
+    if C.ob("C08/anchor", k, f is not None, "not found"):
+        for np_ in (0, 1, 2, 3):
+            paras = tuple(("struct", LP + "Paragraph", (("fields", ("abs", "svec", (("struct", LP + "Field", (("name", symstr.lit("N%d" % i)), ("value", symstr.atom("v%d" % i, "line")))),))),)) for i in range(np_))
+            doc = ("struct", LP + "Deb822", (("0", ("abs", "svec", paras)),))
+
+            class PM(roundtrip.RTMod):
+                def intrinsic(self, I, callee, args, st, n, doc=doc):
+                    if callee == "core::str::<impl str>::parse" or callee.endswith("lossy::Deb822 as core::str::traits::FromStr>::from_str"):
+                        return [(OK, ("enum", OKV, (doc,)), st)]
+                    return super().intrinsic(I, callee, args, st, n)
+            I = hirai.Interp(F, PM(F))
+            res = I.inline(f, [("abs", "text")], hirai.State(depth=0))
+            got = []
+            for ctl, v, s in res:
+                v = I.deep_deref(s, I.deref_val(s, v), 0) if ctl == OK else v
+                if ctl == OK and v[0] == "enum" and v[1] == ERRV:
+                    got.append("Err")
+                elif ctl == OK and v[0] == "enum" and v[1] == OKV and v[2][0][0] == "struct":
+                    fl = dict(v[2][0][2]).get("fields")
+                    got.append("Ok(paragraph of %s)" % (symstr.show(dict(fl[2][0][2])["name"]) if fl and fl[0] == "abs" and fl[2] else "?"))
+                else:
+                    got.append("%s %s" % (ctl, str(v)[:60]))
+            want = ["Ok(paragraph of N0)"] if np_ == 1 else ["Err"]
+            C.ob("C08/paragraph-reader", "lossy Paragraph::from_str on a document of %d paragraph(s)" % np_, got == want, "yields %s, expected %s" % (got, want), f["sp"])
